@@ -66,11 +66,11 @@ def RK4Iterator(f, t, X_old, updateX):
     dxdt, dt = f(t, X_old, True)
 
     k1 = dxdt
-    dxdtsum = k1
     X_k1 = updateX(X_old, k1, dt/2)
 
     k2 = f(t + dt/2, X_k1)
-    dxdtsum += 2*k2
+    #New array for the sum, k1 may be X_old itself or a view of it (ex. f(t, x) = x) and should not be modified
+    dxdtsum = k1 + 2*k2
     X_k2 = updateX(X_old, k2, dt/2)
 
     k3 = f(t + dt/2, X_k2)
